@@ -518,7 +518,10 @@ impl Store {
             for id in filter.ids() {
                 // (the ids are in no particular time order, so all of them must be looked at
                 // before the newest `limit` can be chosen below)
-                if let Some(event) = self.get_event_by_id(id)? {
+                // (looked up through this query's own read transaction, so that the whole
+                // answer comes from one snapshot)
+                if let Some(offset) = self.indexes.get_offset_by_id(&txn, id)? {
+                    let event = unsafe { self.events.get_event_by_offset(offset as usize)? };
                     // and check each against the rest of the filter
                     if filter.event_matches(event)? && screen(event) {
                         let _ = output.insert(event);
